@@ -70,6 +70,8 @@ def coq_build(jobs=16, timeout=2400):
         gen = py2coq.regenerate(os.path.join(COQ, "Gen"), os.path.join(REPO, "src", "xstate_statemachine"))
         from harness import py2coq_tree
         gen.update(py2coq_tree.regenerate(os.path.join(COQ, "Gen"), os.path.join(REPO, "src", "xstate_statemachine")))
+        from harness import py2coq_guard
+        gen.update(py2coq_guard.regenerate(os.path.join(COQ, "Gen"), os.path.join(REPO, "src", "xstate_statemachine")))
         files = _vfiles()
         listing = "\n".join(files)
         lst = os.path.join(BUILD, "vfiles.txt")
